@@ -272,12 +272,29 @@ def run(ctx):
                     guarded = True
             inst.sites.append("cycle %s%s" % ([n.split("::")[-1] for n in names], " (depth-guarded)" if guarded else ""))
             if not guarded:
-                if rep in ARMED_CYCLES:
+                if rep in BOUNDED_CYCLES:
+                    ctx.note("parser cycle %s: %s" % (names, BOUNDED_CYCLES[rep]))
+                elif rep in ARMED_CYCLES:
                     bad.append(("unbounded-recursion:%s" % rep, "recursive descent %s has no depth bound: nesting in the input is turned into native stack depth" % [n.split("::")[-1] for n in names], None))
                 else:
                     ctx.note("parser cycle without depth guard (not armed, not reproduced yet): %s" % names)
         if not sccs:
             raise AnchorMissing("no recursive cycle found under parse_command (the expression grammar is recursive)")
+        # recursive-descent deserialisers of external crates applied to user text: serde_json::Value is a recursive type and
+        # sonic_rs drives its Deserialize impl without a depth limit
+        for k in keys:
+            b = None
+            for (bb, p, u, virt, sp_, mac, cu, st) in F.cg[k]["c"]:
+                n = norm_path(p or u or "")
+                if cu or not EXTERNAL_RECURSIVE.match(n):
+                    continue
+                b = b or F.fn_exact(k)
+                c_ = b.call_at(bb)
+                target = (c_.ga or "") if c_ else ""
+                if "serde_json::Value" in target or "serde_json::value::Value" in target:
+                    inst.sites.append("%s: %s into serde_json::Value" % (base(k), n))
+                    bad.append(("unbounded-recursion:external:%s<Value>@%s" % (n, base(k)),
+                                "%s deserialises user text into the recursive serde_json::Value with %s (no depth limit): nested braces become native stack depth" % (base(k), n), None))
         return bad
     ctx.run("C17.c", "K4 REACH (cycles)", "parser layer call-graph cycles", "input nesting cannot exhaust the native stack", c)
 
@@ -285,4 +302,12 @@ def run(ctx):
 # cycles whose overflow was reproduced against the real code (DESIGN.md §4c); others are reported as notes until triaged
 ARMED_CYCLES = {
     "command::parser::commands::query::sneldb_query::__parse_and_expr",
+    "command::parser::commands::plotql::plotql_parser::__parse_and_expr",
 }
+# cycles that were triaged and found bounded by construction (reason recorded, reported as notes)
+BOUNDED_CYCLES = {
+    "command::parser::command::parse_command": "BATCH nesting: the tokenizer-level splitter drops inner '[' so the parse_command <-> batch::parse recursion is at most 2 deep (100000 nested BATCH -> parse error in 65 ms, no overflow)",
+}
+# external recursive-descent deserialisers applied to raw user text in the parser layer
+# (serde_json's own deserializer enforces a recursion limit of 128; sonic_rs driving serde_json::Value's Deserialize impl does not)
+EXTERNAL_RECURSIVE = re.compile(r"^sonic_rs::(from_str|from_slice|from_reader)$")
